@@ -1,6 +1,7 @@
 package main
 
 import (
+	"crypto/rsa"
 	"bytes"
 	"crypto"
 	"crypto/sha256"
@@ -124,7 +125,8 @@ func checkC05(r *mon.Run) {
 				content = derForest(rng, size)
 			}
 		case "short-oid":
-			oid = asn1.ObjectIdentifier{1, 2, 3}
+			// incl. first arc 2 with a second arc of 40 and more (one octet, two octets, 2.999)
+			oid = []asn1.ObjectIdentifier{{1, 2, 3}, {2, 999, 1}, {2, 40, 1}, {2, 49, 0, 1, 840}, {0, 39, 5}, {1, 0, 0}, {2, 5, 4, 3}}[(i/(4*len(sizes)))%7]
 			content = derForest(rng, size)
 		default:
 			oid = asn1.ObjectIdentifier{1, 3, 6, 1, 4, 1, 311, 2, 1, 99999, 1 << 30, 7, 1234567, 3, 2, 1}
@@ -198,6 +200,10 @@ func checkC05(r *mon.Run) {
 		}
 		if len(sd.Certs) != 1 || !bytes.Equal(sd.Certs[0], cs.Cert.Raw) {
 			fail("certificate", "the certificate is not embedded verbatim")
+			return
+		}
+		if pub, ok := cs.Cert.PublicKey.(*rsa.PublicKey); ok && len(s.Signature) != pub.Size() {
+			fail("signature-length", fmt.Sprintf("encryptedDigest has %d octets, the modulus has %d (a PKCS#1 v1.5 signature is exactly as long as the modulus)", len(s.Signature), pub.Size()))
 			return
 		}
 		if len(s.DigestAlg.Children) < 1 || !bytes.Equal(s.DigestAlg.Children[0].Content, refp7.OIDSHA256) ||
@@ -408,6 +414,40 @@ func checkC05(r *mon.Run) {
 	})
 	r.Floor("signatures_ok", int64(n*9/10))
 	r.Floor("reference_verified", int64(n*9/10))
+	// one signature value in 256 begins with a zero octet: make enough of them that some do, and
+	// require every encryptedDigest to be as long as the modulus and to verify independently
+	{
+		hunt := r.N(1600, 12000)
+		cs := getCertSet(0, keys.IssShort, big.NewInt(77001))
+		pub := cs.Cert.PublicKey.(*rsa.PublicKey)
+		mon.Parallel(hunt, 16, func(i int) {
+			content := []byte(fmt.Sprintf("leading-zero hunt %d/%d", r.Seed, i))
+			var blob []byte
+			var err error
+			if p := tryP(func() { blob, err = pkcs7.SignPKCS7(cs.Key.Priv, cs.Cert, pkcs7.OIDData, content) }); p != "" || err != nil {
+				return
+			}
+			sd, perr := refp7.Parse(blob)
+			if perr != nil || len(sd.Signers) != 1 {
+				return
+			}
+			r.Eval(1)
+			r.Count("signature_length_checks", 1)
+			sig := sd.Signers[0].Signature
+			replay := map[string]any{"content": string(content), "blob_hex": mon.Hex(blob)}
+			if len(sig) != pub.Size() {
+				r.Violation("C05|signature-length|data|serial=hunt", fmt.Sprintf("encryptedDigest has %d octets, the modulus has %d", len(sig), pub.Size()), replay)
+				return
+			}
+			if sig[0] == 0 {
+				r.Count("signatures_with_leading_zero_octet", 1)
+				if v := sd.VerifyDetached(cs.Cert, content); !v.OK {
+					r.Violation("C05|reference-rejects|data|serial=hunt", "a signature whose value begins with a zero octet does not verify: "+v.Reason, replay)
+				}
+			}
+		})
+		r.Floor("signature_length_checks", int64(hunt*9/10))
+	}
 	r.Floor("mozilla_verified", int64(n*9/10))
 	if haveOpenssl() {
 		r.Floor("openssl_accept_reject_pairs", int64(n*8/10))
